@@ -411,6 +411,33 @@ func c15Errors(rc *RuleCtx) {
 		}
 		sort.Strings(got)
 		got = uniq(got)
+		// a lookup that did not find its key refuses: no return with a nil error on the not-found branch of a map lookup
+		missNil := ""
+		if strings.HasPrefix(name, "Lookup") {
+			for _, r := range returnsOf(f) {
+				nilErr := false
+				for _, o := range originsOf(r.Results[ei]) {
+					if k, isC := o.(*ssa.Const); isC && k.IsNil() {
+						nilErr = true
+					}
+				}
+				if !nilErr {
+					continue
+				}
+				for _, fa := range factsAt(r.Block()) {
+					v, truth := normCond(fa.Cond, fa.Truth)
+					if e, ok := v.(*ssa.Extract); ok && e.Index == 1 && !truth {
+						if _, isLk := e.Tuple.(*ssa.Lookup); isLk {
+							missNil = rc.C.pos(r.Pos())
+						}
+					}
+				}
+			}
+		}
+		if missNil != "" {
+			rc.bad(cons, f.Pos(), "a lookup that does not find its key can return a nil error ("+missNil+"): lookup by id and lookup by name disagree about what exists")
+			continue
+		}
 		if len(got) == 1 && got[0] == "avfs."+want {
 			rc.good(cons, f.Pos(), "refuses with avfs."+want)
 		} else {
